@@ -21,6 +21,10 @@ NA = {
 PENDING = {k: "simulation target (DESIGN 3) whose check is still being built in this session; not claimed until its check is registered" for k in ("C06", "C11", "C13", "C14", "C18", "C19")}
 
 CHECKS = {
+ "C19": dict(engine="netsim", category="fault_enumeration", design="DESIGN.md section 3 (C19)",
+   technique="deterministic simulation of the nREPL socket loop on simulated stream sockets with seeded fragmentation/EOF/reset/send faults, plus exhaustive cut-point enumeration of generated bencode streams against a reference codec",
+   text="Only the bencode/nREPL framing clause (and encode/decode identity as a side condition of the same runs) is decided; the EDN and JSON round-trip clauses are pure functions and are NOT claimed. Layer 1: every split position of every generated stream (1-6 messages over big/negative ints, byte strings in the alphabet '0-9:ilde-', arbitrary bytes, multi-byte UTF-8, nested lists/dicts, Python and basilisp containers) goes through the real decode-all: exactly the complete messages, untouched remainder, resumption with the suffix, k-way accumulation; encode is compared byte-for-byte with a 20-line reference. Layer 2: the real on-connect loop per connection (1-3 concurrent) on SimSockets under the baton scheduler: seeded fragment and recv sizes (1 byte .. coalesced), buffer sizes 1..1024, virtual delays, EOF or reset at a boundary or mid-message, failing sendall; responses must frame cleanly, carry exactly the ids of the completely sent requests in order with one final done each, nothing for a trailing partial request, correct eval values, no bytes crossing connections, every connection task terminating.",
+   note="Trusted: reference codec, SimSocket semantics (reliable ordered stream; no loss/reordering injected). Exhaustive per stream at the decoder layer, sampled through the server loop. A change confined to edn.lpy/json.lpy is not detected by this check."),
  "C06": dict(engine="threadsim", category="exploration", design="DESIGN.md section 3 (C06)",
    technique="deterministic simulation: 2-3 real consumer threads over the real native LazySeq under a seeded baton scheduler, contended native-mutex acquisitions routed through a guarded hook; producer fault injection; reference pipeline + demand model",
    text="Seeded schedule search over 2-3 real threads walking one shared lazy sequence (instrumented lazy-seq cells, a single-use Python iterator, or iterate f; under 0-2 stages of map/filter/concat) with scripts of first/rest/next/seq/count/nth/iteration; producers yield, sleep in virtual time, throw on their first call, touch themselves or a later cell. The native per-cell mutex stays the arbiter: a failed try_lock calls the guarded hook which parks the thread in the kernel. Oracles: producer active<=1 per cell, at most one successful return, re-run only after a throw; every value read equals the pure reference pipeline; a producer exception reaches the consumer that triggered it and later accesses re-raise or yield the right element, never a shortened sequence; a producer starts only if the output index demanded so far needs it; pipeline fns run once per element; deadlock = kernel DEADLOCK. Plus a declared non-simulated real-thread probe (6 variants) of the blocking native wait that the hook bypasses.",
